@@ -13,6 +13,11 @@ connections "opened before the failure", virtual clock in sqlalchemy.pool.base.
   then one run per call index x {disconnect, ordinary error} x handle_error listener
   variant {none, passive, force is_disconnect=True, force False,
   invalidate_pool_on_disconnect=False} (quick: 3 of the 5 per history, thorough: all).
+  Chained faults: for every call index, a disconnect there, then a second fault that only
+  exists because of the first - on the transparent reconnect (its connect(), or the cursor /
+  execute of the first statement after it; disconnect or ordinary) - then, after a reconnect
+  that worked, a third fault (ordinary error or disconnect); every fault is judged by the
+  same specification against the state the earlier ones left.
 
 Online trace specification (checked while the faulted history runs):
   D := the error is finally classified as a disconnect (dialect verdict, possibly
@@ -45,7 +50,7 @@ META = {
     "id": "C27",
     "level": "fault_enumeration",
     "technique": "count-then-enumerate injection of disconnect / ordinary errors at every DBAPI call of Connection histories on a fake DBAPI, online trace specification + connection-identity ledger, virtual clock",
-    "level_text": "For each sampled history the fault-free run counts the DBAPI calls; the history is re-run once per call index x {disconnect, ordinary error} x handle_error listener variant (3 of the 5 variants per history in quick, all 5 in thorough). Single faults only. Deterministic, single-threaded.",
+    "level_text": "For each sampled history the fault-free run counts the DBAPI calls; the history is re-run once per call index x {disconnect, ordinary error} x handle_error listener variant (3 of the 5 variants per history in quick, all 5 in thorough). Single faults, plus chains of three faults (disconnect -> fault on the reconnect path -> later error). Deterministic, single-threaded.",
     "level_note": "The DBAPI is a fake: the engine / pool / dialect.is_disconnect code is real, the driver is not. Dialects driven: postgresql+psycopg2 (message based classification) and mysql+pymysql (error-code based). pysqlite cannot run on the fake (needs create_function). Histories are sampled and bounded (<= 9 ops + 6 tail ops).",
     "design_ref": "DESIGN.md section 4, C27",
     "rule": "case = (dialect, listener variant, history, fault plan); non-trivial = the fault fired while the Connection was checked out; distinct by all four",
@@ -54,12 +59,18 @@ META = {
     "exhaustive": {"quick": False, "thorough": False},
     "require": ["faults_injected", "disconnects_judged", "ordinary_errors_judged", "blocked_ops_checked",
                 "reconnects_checked", "handouts_checked", "faults_in_transaction", "faults_in_savepoint",
-                "faults_in_commit", "faults_in_rollback", "listener_flips", "dry_runs"],
+                "faults_in_commit", "faults_in_rollback", "listener_flips", "dry_runs", "chained_fault_runs",
+                "three_fault_runs", "failed_reconnects_judged", "ordinary_errors_after_disconnect_judged"],
     "assumptions": ["the fake DBAPI's ledger (created_at, close_calls) is the ground truth for connection identity"],
 }
 
 LISTENERS = ["none", "passive", "force_true", "force_false", "no_pool_invalidate"]
 TAIL = ["exec", "rollback", "exec", "commit", "other", "exec"]
+# recovery tail of the chained-fault family: blocked exec, rollback, reconnect attempt (2nd
+# fault hits it), successful reconnect, rollback, other, exec (3rd fault: ordinary / disconnect),
+# then the usual recovery again
+CHAIN_TAIL = ["exec", "rollback", "exec", "exec", "rollback", "other", "exec", "exec", "rollback", "exec",
+              "commit", "other", "exec"]
 
 
 def random_history(rng):
@@ -88,10 +99,11 @@ def random_history(rng):
 
 
 class Run:
-    def __init__(self, ctx, dialect, listener, history, plan, lifo):
+    def __init__(self, ctx, dialect, listener, history, plan, lifo, chain=None):
         from vf.mon.poolrig_gg import VClock
 
         self.ctx, self.dialect, self.listener, self.history, self.plan, self.lifo = ctx, dialect, listener, history, plan, lifo
+        self.chain = list(chain or [])
         self.clock = VClock()
         self.trace = []
         self.viol = []
@@ -145,11 +157,10 @@ class Run:
         self.bump("handouts_checked")
         if fc.close_calls:
             self.bad("closed-connection-reused", f"{where}: connection #{fc.fake_id} handed out after close()")
-        elif self.fail_time is not None and fc.created_at <= self.fail_time:
-            if self.pool_wide or fc.fake_id == self.fail_conn:
-                self.bad("connection-opened-before-failure-reused",
-                         f"{where}: connection #{fc.fake_id} (created {fc.created_at}) handed out after the "
-                         f"disconnect at {self.fail_time}")
+        elif fc.created_at <= self.epoch:
+            self.bad("connection-opened-before-failure-reused",
+                     f"{where}: connection #{fc.fake_id} (created {fc.created_at}) handed out after the "
+                     f"disconnect at {self.epoch}")
 
     def _run(self, rig):
         eng, fake, sa = rig.eng, rig.fake, rig.sa
@@ -164,13 +175,17 @@ class Run:
         del pre, c
         rig.armed = True
         rig.plan = dict(self.plan)
+        rig.chain = list(self.chain)
         self.fail_time = None
-        self.fail_conn = None
-        self.pool_wide = False
+        # pool-wide invalidation the disconnects oblige, by the documented rule of
+        # Pool._invalidate: it moves to "now" only if the failing connection is newer than it
+        # (the failing connection itself is closed: caught by the close_calls rule)
+        self.epoch = 0.0
+        self.last_ofc = None
         conn = eng.connect()
         handles = []
         state = {"txn": False, "blocked": False, "after_fault": False, "need_reconnect": False, "fc": self._fc(conn)}
-        seq = list(self.history) + TAIL
+        seq = list(self.history) + (CHAIN_TAIL if self.chain else TAIL)
         i = 0
         while i < len(seq):
             op = seq[i]
@@ -184,6 +199,7 @@ class Run:
             nfired = len(rig.fired)
             fc_before = state["fc"]
             open_before = {c.fake_id for c in rig.open_conns()}
+            was_invalid = conn.invalidated
             nconn_before = len(rig.conns())
             err = None
             try:
@@ -209,7 +225,8 @@ class Run:
                     o = eng.connect()
                     try:
                         ofc = o.connection.dbapi_connection
-                        if self.fail_time is not None:
+                        self.last_ofc = ofc
+                        if True:
                             self._handout(ofc, "second Connection")
                         o.exec_driver_sql("select 2")
                         o.commit()
@@ -246,33 +263,41 @@ class Run:
                 if not on_main:
                     # fault hit the second Connection or the pool's reset during close():
                     # only the ledger rule applies from here on
-                    if final:
+                    if final and desc != "dbapi:connect":
+                        # (a failed connect() discards nothing: the reference point stays)
                         self.fail_time = self.clock.peek()
-                        self.fail_conn = None
-                        self.pool_wide = self.listener != "no_pool_invalidate" and op == "other" and desc != "dbapi:rollback"
-                        if op == "other" and desc in ("dbapi:rollback",):
-                            self.pool_wide = False
+                        if (self.listener != "no_pool_invalidate" and op == "other" and desc != "dbapi:rollback"
+                                and self.last_ofc is not None and self.last_ofc.created_at > self.epoch):
+                            self.epoch = self.fail_time
                     state["after_fault"] = True
                     if op == "close_reconnect":
                         try:
                             conn = eng.connect()
                         except Exception:  # noqa: BLE001
                             return self._finish(None)
-                    state.update(txn=False, blocked=False, fc=self._fc(conn))
-                    handles.clear()
+                        state.update(txn=False, blocked=False, fc=self._fc(conn))
+                        handles.clear()
                     continue
                 inval = getattr(err, "connection_invalidated", None)
                 if final:
                     self.bump("disconnects_judged")
                     self.fail_time = self.fault_time(k)
-                    self.fail_conn = fc_before.fake_id if fc_before is not None else None
-                    self.pool_wide = self.listener != "no_pool_invalidate"
+                    if fc_before is not None:
+                        if self.listener != "no_pool_invalidate" and fc_before.created_at > self.epoch:
+                            self.epoch = self.fail_time
+                    else:
+                        # a failed reconnect of an already invalidated Connection has no pooled
+                        # connection to discard: the reference point stays
+                        self.bump("failed_reconnects_judged")
                     if not isinstance(err, sa.exc.DBAPIError) or inval is not True:
                         self.bad(f"disconnect-not-flagged:{op}", f"{op} raised {err!r} connection_invalidated={inval}")
                     elif not conn.invalidated:
                         self.bad(f"connection-not-invalidated:{op}", f"Connection.invalidated is False after disconnect in {op}")
                     # was a transaction in progress?  rollback() itself clears it even when it fails
-                    if state["txn"] or op == "nested" or (op == "exec" and desc != "dbapi:cursor"):
+                    if desc == "dbapi:connect":
+                        # the transparent reconnect failed: nothing new was begun
+                        had_txn = conn.get_transaction() is not None
+                    elif state["txn"] or op == "nested" or (op == "exec" and desc != "dbapi:cursor"):
                         had_txn = True
                     elif op == "exec":
                         # the cursor of the first statement failed: whether autobegin had
@@ -289,12 +314,14 @@ class Run:
                         handles.clear()
                 else:
                     self.bump("ordinary_errors_judged")
+                    if state["after_fault"]:
+                        self.bump("ordinary_errors_after_disconnect_judged")
                     state["after_fault"] = True
                     if isinstance(err, sa.exc.DBAPIError) and inval:
                         self.bad(f"ordinary-error-flagged-as-disconnect:{op}", f"{err!r}")
-                    elif conn.invalidated:
+                    elif conn.invalidated and not was_invalid:
                         self.bad(f"ordinary-error-invalidated-connection:{op}", f"after {err!r}")
-                    else:
+                    elif fc_before is not None:
                         closed_now = open_before - {c.fake_id for c in rig.open_conns()}
                         if closed_now or len(rig.conns()) != nconn_before:
                             self.bad(f"ordinary-error-touched-pool:{op}",
@@ -373,18 +400,34 @@ class Run:
             pass
 
 
+CHAINS = [
+    # after the first (disconnect) fault: a fault on the reconnect path, then - after a
+    # reconnect that worked and two more statements - a third fault
+    [("dbapi:connect", "disconnect", 0), ("dbapi:execute", "error", 2)],
+    [("dbapi:connect", "error", 0), ("dbapi:execute", "error", 2)],
+    [("dbapi:cursor", "disconnect", 0), ("dbapi:execute", "error", 2)],
+    [("dbapi:execute", "disconnect", 0), ("dbapi:execute", "error", 2)],
+    [("dbapi:connect", "disconnect", 0), ("dbapi:execute", "disconnect", 2)],
+]
+
+
 def report(ctx, r):
     for mech, text in r.viol[:1]:
         lis = r.listener if r.listener in ("force_true", "force_false", "no_pool_invalidate") else "plain"
         ctx.violation(f"{mech}:{lis}",
-                      f"{text} :: dialect={r.dialect} listener={r.listener} history={r.history} plan={r.plan} trace={r.trace[-7:]}",
-                      {"dialect": r.dialect, "listener": r.listener, "history": r.history, "plan": r.plan,
+                      f"{text} :: dialect={r.dialect} listener={r.listener} history={r.history} plan={r.plan} chain={r.chain} trace={r.trace[-7:]}",
+                      {"dialect": r.dialect, "listener": r.listener, "history": r.history, "plan": r.plan, "chain": r.chain,
                        "lifo": r.lifo, "trace": r.trace, "fired": r.fired,
                        "dbapi_tail": [(e.kind, e.conn, e.get("sql"), e.get("faulted")) for e in r.rig.fake.log[-30:]]})
     for k, v in r.stats.items():
         ctx.count(k, v)
     ctx.count("fault_runs")
-    ctx.case({"d": r.dialect, "l": r.listener, "h": r.history, "p": sorted(r.plan.items())}, nontrivial=bool(r.fired))
+    if r.chain:
+        ctx.count("chained_fault_runs")
+        if len(r.fired) >= 3:
+            ctx.count("three_fault_runs")
+    ctx.case({"d": r.dialect, "l": r.listener, "h": r.history, "p": sorted(r.plan.items()), "c": r.chain},
+             nontrivial=bool(r.fired))
 
 
 def enumerate_faults(ctx, dialect, history, lifo, listeners):
@@ -402,6 +445,15 @@ def enumerate_faults(ctx, dialect, history, lifo, listeners):
                 if not ctx.budget_ok():
                     return
                 report(ctx, Run(ctx, dialect, listener, history, {k: kind}, lifo).execute())
+    # chained faults: disconnect, then trouble on the reconnect path, then another error
+    for listener in (LISTENERS[:2] + ["no_pool_invalidate", "force_true"] if ctx.thorough else ["none"]):
+        for k, desc, kinds in dry.points:
+            if desc in ("dbapi:connect", "dbapi:close"):
+                continue
+            for chain in CHAINS:
+                if not ctx.budget_ok():
+                    return
+                report(ctx, Run(ctx, dialect, listener, history, {k: "disconnect"}, lifo, chain=chain).execute())
 
 
 def run(ctx):
